@@ -111,10 +111,10 @@ Section Fields.
   Proof.
     destruct f; cbn [step].
     - (* FVisit *) destruct (completed (st s n)) eqn:Ec; [apply ok_refl|]. destruct (negb (started (st s n))) eqn:Es.
-      + unfold thr_loop. destruct (awaiting p e s n) eqn:Ea; [destruct (in_ended_block p s n); apply ok_refl|].
+      + unfold thr_loop. destruct (awaiting p e s n) eqn:Ea; [destruct (ended_here p s n k); apply ok_refl|].
         unfold enter. cbn [out_state]. apply ok_enter. now right.
       + unfold enter. cbn [out_state]. apply ok_enter. left. now apply negb_false_iff in Es.
-    - (* FThr *) unfold thr_loop. destruct (awaiting p e s n) eqn:Ea; [destruct (in_ended_block p s n); apply ok_refl|].
+    - (* FThr *) unfold thr_loop. destruct (awaiting p e s n) eqn:Ea; [destruct (ended_here p s n k); apply ok_refl|].
       unfold enter. cbn [out_state]. apply ok_enter. now right.
     - (* dispatch *) unfold dispatch. destruct (n_kind (nd p n)) eqn:K.
       + destruct (completed (st s n)); apply ok_refl.
@@ -154,7 +154,7 @@ Section Fields.
     - destruct (_ || _); apply ok_refl.
     - destruct (nth_error (n_children (nd p n)) i) as [c|]; [|cbn [out_state]; ok].
       destruct (_ || _); [cbn [out_state]; ok|]. destruct (Nat.ltb i _); [apply ok_refl|].
-      destruct (in_ended_block p s c); [cbn [out_state]; ok|apply ok_refl].
+      destruct (ended_here p s c k); [cbn [out_state]; ok|apply ok_refl].
     - cbn [out_state]. ok.
     - apply ok_refl.
     - apply ok_refl.
